@@ -151,6 +151,7 @@ func driveEqLaws(c *Ctx) error {
 			in := asL(j["input"])
 			seen := map[string]bool{}
 			results := []any{}
+			physOrders := map[string]bool{} // iteration orders as the physical values (text and precision of every number) show them
 			rounds := 3
 			fixed, _ := j["reps"].([]any) // a representation per input (numbers tied in value but held at different precisions), tried repeatedly
 			if len(fixed) == len(in) {
@@ -177,7 +178,11 @@ func driveEqLaws(c *Ctx) error {
 						pv[i] = vals[k]
 					}
 					var r J
-					pn, msg := guard(func() { r = okVal(cty.SetVal(pv)) })
+					pn, msg := guard(func() {
+						sv := cty.SetVal(pv)
+						r = okVal(sv)
+						physOrders[string(physKey(sv))] = true
+					})
 					if pn {
 						r = failed("panic", trunc(msg))
 					}
@@ -196,6 +201,7 @@ func driveEqLaws(c *Ctx) error {
 			sev := J{"ev": "setperm", "input": projectArgs(inVals), "results": results}
 			if len(fixed) == len(in) {
 				sev["tied"] = true
+				sev["orders"] = len(physOrders)
 			}
 			c.Out.Emit(sev)
 		}
